@@ -77,6 +77,34 @@ pub fn describe<S: Debug, T: Debug>(r: std::thread::Result<Result<S, Option<T>>>
 
 pub static mut TRACE: bool = false;
 
+// Per-run watchdog: a parse that does not return within WORD_LIMIT_MS is a hang (a parse of a few hundred tokens
+// takes microseconds). The monitor prints `H|module|word|mode` and ends the process at once, so that the parent can
+// re-run the batch without that module instead of waiting for its own time limit.
+pub static CUR_START_MS: std::sync::atomic::AtomicU64 = std::sync::atomic::AtomicU64::new(0);
+pub static CUR_ID: std::sync::atomic::AtomicUsize = std::sync::atomic::AtomicUsize::new(0);
+pub static CUR_MODE: std::sync::atomic::AtomicUsize = std::sync::atomic::AtomicUsize::new(0);
+pub static CUR_WORD: std::sync::Mutex<String> = std::sync::Mutex::new(String::new());
+pub const WORD_LIMIT_MS: u64 = 20_000;
+pub fn now_ms() -> u64 {
+    static T0: std::sync::OnceLock<std::time::Instant> = std::sync::OnceLock::new();
+    T0.get_or_init(std::time::Instant::now).elapsed().as_millis() as u64 + 1
+}
+pub fn start_watchdog() {
+    now_ms();
+    std::thread::spawn(|| loop {
+        std::thread::sleep(std::time::Duration::from_millis(200));
+        let s = CUR_START_MS.load(std::sync::atomic::Ordering::SeqCst);
+        if s != 0 && now_ms().saturating_sub(s) > WORD_LIMIT_MS {
+            let w = CUR_WORD.lock().map(|g| g.clone()).unwrap_or_default();
+            let out = std::io::stdout();
+            let mut o = out.lock();
+            let _ = writeln!(o, "H|{}|{}|{}", CUR_ID.load(std::sync::atomic::Ordering::SeqCst), w, CUR_MODE.load(std::sync::atomic::Ordering::SeqCst));
+            let _ = o.flush();
+            std::process::exit(3);
+        }
+    });
+}
+
 /// Depth-first walk of the input trie. A word is extended only if the run on it polled the input
 /// past its end (otherwise the outcome cannot depend on what follows).
 pub fn explore(t: u8, l: usize, id: usize, run: &dyn Fn(&[u8], u8) -> (String, usize, bool)) {
@@ -96,7 +124,15 @@ pub fn explore(t: u8, l: usize, id: usize, run: &dyn Fn(&[u8], u8) -> (String, u
                 writeln!(o, "T|{}|{}|{}", id, ws, mode).unwrap();
                 o.flush().unwrap();
             }
+            if let Ok(mut g) = CUR_WORD.lock() {
+                g.clear();
+                g.push_str(&ws);
+            }
+            CUR_ID.store(id, std::sync::atomic::Ordering::SeqCst);
+            CUR_MODE.store(mode as usize, std::sync::atomic::Ordering::SeqCst);
+            CUR_START_MS.store(now_ms(), std::sync::atomic::Ordering::SeqCst);
             let (d, c, a) = run(w, mode);
+            CUR_START_MS.store(0, std::sync::atomic::Ordering::SeqCst);
             if mode == 0 {
                 reached_end = c > w.len();
             }
@@ -226,7 +262,7 @@ fn run_{i}() {{
             l = m.depth,
         );
     }
-    s += "fn main() {\n    std::panic::set_hook(Box::new(|_| {}));\n    if std::env::args().any(|a| a == \"--trace\") { unsafe { TRACE = true; } }\n    let skip: Vec<usize> = std::env::args().skip_while(|a| a != \"--skip\").skip(1).filter_map(|s| s.parse().ok()).collect();\n";
+    s += "fn main() {\n    std::panic::set_hook(Box::new(|_| {}));\n    start_watchdog();\n    if std::env::args().any(|a| a == \"--trace\") { unsafe { TRACE = true; } }\n    let skip: Vec<usize> = std::env::args().skip_while(|a| a != \"--skip\").skip(1).filter_map(|s| s.parse().ok()).collect();\n";
     for &i in ids {
         if !bad[i] {
             s += &format!("    if !skip.contains(&{i}) {{ run_{i}(); }}\n");
@@ -364,7 +400,19 @@ pub fn run_real(mods: &[RealModule], tag: &str) -> RealResults {
             // T line names it), then run the batch again without it; repeat for further culprits.
             let mut culprits: Vec<(usize, Vec<u8>, u8)> = vec![];
             let mut last_out = String::new();
-            for _round in 0..12 {
+            let parse_marker = |l: &str| -> Option<(usize, Vec<u8>, u8)> {
+                let p: Vec<&str> = l.split('|').collect();
+                Some((p.get(1)?.parse::<usize>().ok()?, decode_word(p.get(2)?), p.get(3)?.parse::<u8>().ok()?))
+            };
+            // the first run may already name its culprit (watchdog line)
+            if let Some(h) = out.lines().rev().find(|l| l.starts_with("H|")).and_then(|l| parse_marker(l)) {
+                culprits.push(h);
+            }
+            let search_started = std::time::Instant::now();
+            for _round in 0..400 {
+                if search_started.elapsed().as_secs() > 1500 {
+                    break; // the remaining modules of this batch stay unobserved
+                }
                 let mut args: Vec<String> = vec!["--trace".into(), "--skip".into()];
                 args.extend(culprits.iter().map(|c| c.0.to_string()));
                 let argrefs: Vec<&str> = args.iter().map(|s| s.as_str()).collect();
@@ -373,7 +421,8 @@ pub fn run_real(mods: &[RealModule], tag: &str) -> RealResults {
                     last_out = trace;
                     break;
                 }
-                let last = trace.lines().rev().find(|l| l.starts_with("T|")).map(|l| l.to_string());
+                // a watchdog line names the hanging run; otherwise (abort, memory limit, time-out) the last trace line does
+                let last = trace.lines().rev().find(|l| l.starts_with("H|")).or_else(|| trace.lines().rev().find(|l| l.starts_with("T|"))).map(|l| l.to_string());
                 let hang = last.and_then(|l| {
                     let p: Vec<&str> = l.split('|').collect();
                     Some((p.get(1)?.parse::<usize>().ok()?, decode_word(p.get(2)?), p.get(3)?.parse::<u8>().ok()?))
